@@ -11,6 +11,9 @@ and `mlr help function ...`, never from Miller's Go tables):
   s  accumulation idioms end to end (@sum[$a] += $x ...) against a Python fold
   p  is_* / asserting_* predicates x values: R-pred
   d  the tables recorded in reference-main-null-data.md for + && || against evaluated cells
+  f  the matrix and the predicates again over operands read from DKVP / CSV files
+R-type (all matrix monitors): the type rules the documentation states, as an expectation independent of the binary; cells
+the documentation leaves open are counted as unjudged, never compared with a recording of the binary.
 """
 import hashlib
 import json
@@ -26,10 +29,13 @@ LEVEL = "exploration"
 
 ENV = {"MLR_NO_SHELL": "1"}
 INPUT = '{"i":3,"f":2.5,"b":true,"e":"","s":"abc","n":null}\n'
-PRELUDE = ('func fabs() { if (false) { return 1 } }\n'
-           'func fid(a) { return a }\n'
-           'fn = func(a) {return a};\n'
-           'err = 1/"x";\n')
+PRELUDE_FUNCS = ('func fabs() { if (false) { return 1 } }\n'
+                 'func fid(a) { return a }\n'
+                 'func fkeep(a) { var y = 5; y = a; return y }\n'
+                 'func fkeepn(a) { num y = 5; y = a; return y }\n')
+PRELUDE_LOCALS = ('fn = func(a) {return a};\n'
+                  'err = 1/"x";\n')
+PRELUDE = PRELUDE_FUNCS + PRELUDE_LOCALS
 DOC_NULL = "/repo/docs/src/reference-main-null-data.md"
 
 KINDS = ["int", "float", "boolean", "empty", "string", "bytes", "array", "map", "funct", "error", "null", "absent"]
@@ -37,6 +43,28 @@ ABBR = {"int": "i", "float": "f", "boolean": "b", "empty": "E", "string": "s", "
         "map": "M", "funct": "F", "error": "!", "null": "n", "absent": "-", "FATAL": "X", "CRASH": "C"}
 SCALARS = ("int", "float", "boolean", "empty", "string", "bytes")   # reference-main-data-types.md "Scalars" (+ empty string)
 NULLISH = ("absent", "empty", "error", "null")
+
+
+# operand source of the case being run in this worker process: None = the JSON record INPUT, else
+# {"name", "flags", "stdin"} (values read from a DKVP / CSV file); set and reset by the case functions that support it
+_IO = None
+
+
+def _flags():
+    return list(_IO["flags"]) if _IO else ["--ijson", "--ojson"]
+
+
+def _stdin():
+    return _IO["stdin"] if _IO else INPUT
+
+
+def _run_io(func, case):
+    global _IO
+    _IO = case.get("io")
+    try:
+        return func(case)
+    finally:
+        _IO = None
 
 
 def _h(*xs):
@@ -75,16 +103,66 @@ def operand_pool(tier):
     return [{"id": n, "kind": k, "expr": e, "canon": c, "soft": s} for n, (k, e, c, s) in enumerate(P)]
 
 
+# operands read from DATA FILES (reference-main-null-data.md: empty = "x=,y=2 in the data input stream"; for CSV "the only way
+# a value can be missing is to be empty"; reference-main-arithmetic.md / data-types: from-data 0xff and 1e3 are numbers, `-`,
+# `true`, `infinity` and ` ` are strings, a field the record lacks is absent)
+FROM_DATA_FIELDS = [
+    # (field, text in the file, documented kind)
+    ("i", "3", "int"), ("f", "2.5", "float"), ("e", "", "empty"), ("s", "abc", "string"), ("hx", "0xff", "int"),
+    ("sci", "1e3", "float"), ("dash", "-", "string"), ("t", "true", "string"), ("sp", " ", "string"), ("neg", "-7", "int"),
+    ("z", "0", "int"), ("inf", "infinity", "string"), ("e2", "", "empty"),
+]
+
+
+def from_data_sources():
+    names = [f for f, _, _ in FROM_DATA_FIELDS]
+    vals = [v for _, v, _ in FROM_DATA_FIELDS]
+    return [
+        {"name": "dkvp", "flags": ["--idkvp", "--ojson"], "stdin": ",".join(f"{n}={v}" for n, v in zip(names, vals)) + "\n"},
+        {"name": "csv", "flags": ["--icsv", "--ojson"], "stdin": ",".join(names) + "\n" + ",".join(vals) + "\n"},
+    ]
+
+
+def from_data_pool():
+    P = [{"id": 100 + n, "kind": k, "expr": "$" + f, "canon": False, "soft": False, "text": v}
+         for n, (f, v, k) in enumerate(FROM_DATA_FIELDS)]
+    P.append({"id": 199, "kind": "absent", "expr": "$nosuch", "canon": False, "soft": False, "text": ""})
+    return P
+
+
+def calibrate_from_data(io, labelmap):
+    """typeof and printed text of every from-data operand must be the documented kind and the file's own text"""
+    global _IO
+    pool = from_data_pool()
+    _IO = io
+    try:
+        got = eval_cells([(str(o["id"]), "(" + o["expr"] + ")") for o in pool])
+    finally:
+        _IO = None
+    keep, problems = [], []
+    for o in pool:
+        lab, txt = got[str(o["id"])]
+        k = labelmap.get(lab, lab)
+        if k != o["kind"] or (k != "absent" and txt != o["text"]):
+            problems.append((o, k, txt))
+        else:
+            keep.append(o)
+    return keep, problems
+
+
 # ------------------------------------------------------------------------------------------
 # evaluating many expressions in one process; a batch that dies is bisected
 
-def _prog(prelude, units):
-    lines = [prelude]
+def _prog(prelude, units, wrap=None):
+    """wrap = "begin" | "end": the statements run inside that block (function definitions stay at top level)"""
+    lines = [prelude] if not wrap else [PRELUDE_FUNCS, wrap + " {", PRELUDE_LOCALS]
     for uid, stmts, obs in units:
         if stmts:
             lines.append(stmts)
         for cid, expr in obs:
             lines.append(f'print "<<<{cid} ".typeof({expr}); print {expr}; print ">>>";')
+    if wrap:
+        lines.append("}")
     return "\n".join(lines)
 
 
@@ -105,15 +183,17 @@ def _parse(out):
     return got
 
 
-def eval_units(units, res=None, prelude=PRELUDE, stdin=INPUT):
+def eval_units(units, res=None, prelude=PRELUDE, stdin=INPUT, wrap=None):
     """units: list of (unit id, statements to run first, [(cell id, expression to observe)]).
     Returns {cell id: (typeof label, printed text)}; if a unit ends the process all its cells get
     ("FATAL"|"CRASH"|"SLOW", stderr excerpt). A batch that dies is bisected down to the culprit."""
     if not units:
         return {}
     # the program goes through a file: one argv string is limited to 128 KiB
-    r = R.mlr(["--ijson", "--ojson", "put", "-q", "-f", "prog.mlr"], stdin=stdin, env=ENV,
-              files={"prog.mlr": _prog(prelude, units)})
+    if _IO and stdin is INPUT:
+        stdin = _IO["stdin"]
+    r = R.mlr(_flags() + ["put", "-q", "-f", "prog.mlr"], stdin=stdin, env=ENV,
+              files={"prog.mlr": _prog(prelude, units, wrap)})
     if res is not None:
         bump(res, "processes")
     got = _parse(r.out) if r.verdict == "exited" else {}
@@ -130,8 +210,8 @@ def eval_units(units, res=None, prelude=PRELUDE, stdin=INPUT):
             v = ("FATAL", "no output for the cell: " + r.out[-200:])
         return {cid: v for cid, _ in units[0][2]}
     mid = len(units) // 2
-    out = eval_units(units[:mid], res, prelude, stdin)
-    out.update(eval_units(units[mid:], res, prelude, stdin))
+    out = eval_units(units[:mid], res, prelude, stdin, wrap)
+    out.update(eval_units(units[mid:], res, prelude, stdin, wrap))
     return out
 
 
@@ -141,7 +221,7 @@ def eval_cells(cells, res=None, prelude=PRELUDE, stdin=INPUT):
 
 
 def replay_argv(expr, prelude=PRELUDE):
-    return ["--ijson", "--ojson", "put", "-q", prelude + f"print typeof({expr}); print {expr};"]
+    return _flags() + ["put", "-q", prelude + f"print typeof({expr}); print {expr};"]
 
 
 def parse_num(text):
@@ -243,6 +323,8 @@ def abs_id_domain(op):
         return ("int", "float", "boolean", "empty", "string", "bytes")
     if op in MINMAX:
         return ("int", "float", "boolean", "empty", "string")
+    if op == "^^":
+        return ("boolean",)     # "Other arithmetic, boolean, and bitwise operators besides && and || are similar to +"
     return ()
 
 
@@ -252,9 +334,284 @@ def bexpr(op, a, b, form):
     return f"({a}) {op} ({b})"
 
 
+# ---- R-type: the type rules the documentation states, as an expectation that never looks at the binary.
+# Sources: the (+) table of reference-main-null-data.md and the sentence under it ("Other arithmetic, boolean, and
+# bitwise operators besides && and || are similar to +"); "Most functions/operators which have one or more empty
+# arguments produce empty output" (same page); reference-main-data-types.md ("Generally strings, numbers, and booleans
+# don't mix ... the dot operator has been generalized to stringify non-strings"; error = "input ... of the wrong type");
+# function help of < == ("Mixing number and string results in string compare"), <=>, ?? and ???, . ; for min/max
+# reference-dsl-operators.md ("if one argument is absent-null, the other is returned. Empty-null loses min or max against
+# numeric or boolean; empty-null is less than any other string"), the help ("Min of n numbers; null loses ... recurse into
+# arrays and maps") and the mixed-data note of stats1/merge-fields ("numbers are less than strings").
+# A cell the documentation leaves open returns None and is counted as unjudged; nothing is taken from the binary.
+
+WRONGTYPE = ("boolean", "string")      # non-numeric, non-null scalars: arithmetic/bitwise/math on them is a type error
+S7 = ("int", "float", "boolean", "empty", "string", "absent", "error")
+NUM = ("int", "float")
+
+
+def _numlike(o):
+    return o["kind"] == "string" and (parse_num(o["text"]) is not None or o["text"] in ("true", "false"))
+
+
+def _canon_dec(o):
+    """number whose text is plain decimal (so that 'string compare' of it is unambiguous)"""
+    return re.fullmatch(r"-?(0|[1-9][0-9]*)(\.[0-9]+)?", o["text"] or "") is not None
+
+
+def _isnan(o):
+    v = parse_num(o["text"])
+    return isinstance(v, float) and v != v
+
+
+def _cmp_expected(op, a, b):
+    ka, kb = a["kind"], b["kind"]
+    strs = ("string", "empty")
+    if ka in NUM and kb in NUM:
+        if _isnan(a) or _isnan(b):
+            return None
+        x, y = parse_num(a["text"]), parse_num(b["text"])
+        if x is None or y is None:
+            return None
+        c = (x > y) - (x < y)
+        cls = "num-num"
+    elif ka in strs and kb in strs:
+        c = (a["text"] > b["text"]) - (a["text"] < b["text"])
+        cls = "str-str"
+    elif (ka in NUM and kb in strs) or (ka in strs and kb in NUM):
+        # "Mixing number and string results in string compare"
+        if op == "<=>" or _numlike(a) or _numlike(b):
+            return None
+        n = a if ka in NUM else b
+        if not _canon_dec(n):
+            return None
+        c = (a["text"] > b["text"]) - (a["text"] < b["text"])
+        cls = "num-str"
+    else:
+        return None
+    if op == "<=>":
+        return {"kinds": ("int",), "sign": c, "cls": cls}
+    v = {"<": c < 0, "<=": c <= 0, "==": c == 0, "!=": c != 0, ">=": c >= 0, ">": c > 0}[op]
+    return {"kinds": ("boolean",), "text": "true" if v else "false", "cls": cls}
+
+
+def _flatten_numbers(o):
+    """numbers inside an array/map operand whose printed text is JSON holding only numbers, else None"""
+    try:
+        v = json.loads(o["text"])
+    except ValueError:
+        return None
+    out = []
+
+    def walk(x):
+        if isinstance(x, bool) or x is None or isinstance(x, str):
+            raise ValueError
+        if isinstance(x, (int, float)):
+            out.append(x)
+        elif isinstance(x, list):
+            for y in x:
+                walk(y)
+        elif isinstance(x, dict):
+            for y in x.values():
+                walk(y)
+    try:
+        walk(v)
+    except ValueError:
+        return None
+    return out or None
+
+
+def minmax_model(f, ops):
+    """Documented result of min/max over the operand list, or None where the documentation is silent.
+    -> {"kinds": (...), "text": str|None, "value": number|None, "cls": str}"""
+    ops = [o for o in ops if o["kind"] != "absent"]          # absent-null: the other is returned
+    if not ops:
+        return {"kinds": ("absent",), "cls": "all-absent"}
+    if any(o["kind"] not in ("int", "float", "boolean", "empty", "string", "array", "map") for o in ops):
+        return None
+    nums, strs, bools, had_coll = [], [], [], False
+    for o in ops:
+        if o["kind"] in NUM:
+            if _isnan(o):
+                return None
+            nums.append(parse_num(o["text"]))
+        elif o["kind"] in ("array", "map"):
+            fl = _flatten_numbers(o)              # "recurse into arrays and maps"
+            if fl is None:
+                return None
+            nums += fl
+            had_coll = True
+        elif o["kind"] == "boolean":
+            bools.append(o["text"])
+        else:
+            if _numlike(o):
+                return None
+            strs.append(o["text"])
+    if any(v is None for v in nums):
+        return None
+    had_empty = "" in strs
+    if (nums or bools) and had_empty:
+        strs = [s for s in strs if s != ""]       # "Empty-null loses min or max against numeric or boolean"
+    cls = "+".join(c for c, present in (("num", nums), ("bool", bools), ("str", strs)) if present)
+    if had_empty:
+        cls += "+empty"
+    if bools and had_coll:
+        return None
+    if bools and (nums or strs):
+        # where booleans collate against numbers and strings is not documented: only selection is judged
+        return {"kinds": None, "select": True, "cls": cls}
+    if bools:
+        if len(set(bools)) == 1:
+            return {"kinds": ("boolean",), "text": bools[0], "cls": cls}
+        return {"kinds": ("boolean",), "select": True, "cls": cls}
+    if nums and (not strs or f == "min"):
+        v = min(nums) if f == "min" else max(nums)    # numbers are less than strings
+        ints = all(isinstance(x, int) for x in nums)
+        floats = all(isinstance(x, float) for x in nums)
+        kinds = ("int",) if ints else ("float",) if (floats and not had_coll) else ("int", "float")
+        return {"kinds": kinds, "value": v, "cls": cls}
+    v = min(strs) if f == "min" else max(strs)
+    return {"kinds": ("empty",) if v == "" else ("string",), "text": v, "cls": cls}
+
+
+def _doc_token(o):
+    k = o["kind"]
+    if k == "boolean":
+        return o["text"]
+    if k == "int":
+        return "3"           # the tables' representative of a non-boolean number
+    return {"empty": "(empty)", "absent": "(absent)", "error": "(error)"}.get(k)
+
+
+def doc_expect(op, a, b, math2=(), doctab=None):
+    """What the documentation says about `a op b`, or None."""
+    ka, kb = a["kind"], b["kind"]
+    if op in MINMAX:
+        return minmax_model(op, [a, b])
+    if op in ARITH or op in BITWISE or op == "pow" or op in math2:
+        if ka not in S7 or kb not in S7:
+            return None
+        if _numlike(a) or _numlike(b):
+            return None
+        isfunc = op in math2 and op != "pow"
+        dom = ("int",) if op in BITWISE else NUM
+        if ka in WRONGTYPE or kb in WRONGTYPE:
+            if isfunc and "absent" in (ka, kb):
+                return None
+            return {"kinds": ("error",), "cls": "wrong-type"}
+        if "error" in (ka, kb):
+            if isfunc and "absent" in (ka, kb):
+                return None
+            return {"kinds": ("error",), "cls": "error-operand"}
+        if ka in ("empty", "absent") and kb in ("empty", "absent"):
+            if isfunc and "absent" in (ka, kb):
+                return {"kinds": ("absent",), "cls": "func-of-absent"}
+            return {"kinds": ("empty",) if ka == kb == "empty" else ("absent",), "cls": "null-null"}
+        if "absent" in (ka, kb):
+            return None                # R-abs-id / R-func-abs judge these (with the value)
+        if (ka in NUM and ka not in dom) or (kb in NUM and kb not in dom):
+            return None                # float with a bitwise operator: not documented
+        if "empty" in (ka, kb):
+            x = b if ka == "empty" else a
+            if op in EMPTYNUM:
+                return None            # R-empty-num judges these (with the value)
+            if isfunc:
+                return {"kinds": ("empty",), "cls": "func-of-empty"}
+            # "similar to +" says the number, "most operators with an empty argument produce empty" says empty
+            return {"kinds": ("empty", x["kind"]), "cls": "empty-num"}
+        return {"kinds": ("int",) if op in BITWISE else NUM, "cls": "num-num"}
+    if op == ".":
+        D = ("int", "float", "boolean", "empty", "string", "absent")
+        if ka not in D or kb not in D:
+            return None
+        text = ("" if ka == "absent" else a["text"]) + ("" if kb == "absent" else b["text"])
+        if ka == kb == "absent":
+            return {"kinds": ("absent",), "cls": "null-null"}
+        if text == "":
+            return {"kinds": ("empty",), "text": "", "cls": "null-null"}
+        kinds = ["string"]
+        if ka in ("absent", "empty"):
+            kinds.append(kb)
+        if kb in ("absent", "empty"):
+            kinds.append(ka)
+        if parse_num(text) is not None:
+            kinds += ["int", "float"]      # whether a number-looking concatenation is re-inferred is not documented
+        return {"kinds": tuple(kinds), "text": text, "cls": "concat"}
+    if op in COMPARE:
+        return _cmp_expected(op, a, b)
+    if op in ("&&", "||"):
+        # prose under the tables: `false && X` is false and `true || X` is true whatever X is
+        if ka == "boolean" and a["text"] == ("false" if op == "&&" else "true"):
+            return {"kinds": ("boolean",), "text": a["text"], "cls": "short-circuit"}
+        tab = (doctab or {}).get(op)
+        ta, tb = _doc_token(a), _doc_token(b)
+        if tab and ta and tb and (ta, tb) in tab:
+            v = tab[(ta, tb)]
+            if v in ("true", "false"):
+                return {"kinds": ("boolean",), "text": v, "cls": "doc-table"}
+            if v in DOC_TOKEN:
+                return {"kinds": (DOC_TOKEN[v][0],), "cls": "doc-table"}
+        return None
+    if op in LOGICAL:
+        if ka == kb == "boolean":
+            x, y = a["text"] == "true", b["text"] == "true"
+            v = {"&&": x and y, "||": x or y, "^^": x != y}[op]
+            return {"kinds": ("boolean",), "text": "true" if v else "false", "cls": "bool-bool"}
+        if op == "^^" and ka in S7 and kb in S7 and not _numlike(a) and not _numlike(b):
+            if ka in ("int", "float", "string") or kb in ("int", "float", "string"):
+                return {"kinds": ("error",), "cls": "wrong-type"}
+            if "error" in (ka, kb):
+                return {"kinds": ("error",), "cls": "error-operand"}
+        return None
+    if op in COALESCE:
+        if ka in ("error", "null"):
+            return None
+        take_b = ka == "absent" or (op == "???" and ka == "empty")
+        x = b if take_b else a
+        return {"kinds": (x["kind"],), "text": x["text"], "cls": "coalesce-right" if take_b else "coalesce-left"}
+    if op in REGEX:
+        if ka in ("string", "empty") and kb in ("string", "empty") and re.fullmatch(r"[A-Za-z0-9 ]*", b["text"]):
+            v = b["text"] in a["text"]
+            if op == "!=~":
+                v = not v
+            return {"kinds": ("boolean",), "text": "true" if v else "false", "cls": "str-str"}
+        return None
+    return None
+
+
+def judge_expect(exp, k, txt, operands):
+    """-> None if (k, txt) satisfies the expectation, else a short description of what was expected."""
+    if exp.get("select"):
+        for o in operands:
+            if o["kind"] == k and (same_value(txt, o["text"]) or k in ("array", "map")):
+                return None
+        if exp.get("kinds") and k not in exp["kinds"]:
+            return "one of its arguments (" + "/".join(exp["kinds"]) + ")"
+        return "one of its arguments"
+    if exp.get("kinds") is not None and k not in exp["kinds"]:
+        return "/".join(exp["kinds"])
+    if exp.get("text") is not None and k not in ("error", "absent"):
+        if txt != exp["text"] and not (k in NUM and same_value(txt, exp["text"])):
+            return f"{'/'.join(exp['kinds'])} {exp['text']!r}"
+    if exp.get("value") is not None:
+        v = parse_num(txt)
+        if v is None or float(v) != float(exp["value"]):
+            return f"{'/'.join(exp['kinds'])} {exp['value']!r}"
+    if exp.get("sign") is not None:
+        v = parse_num(txt)
+        if v is None or ((v > 0) - (v < 0)) != exp["sign"]:
+            return f"an int of sign {exp['sign']}"
+    return None
+
+
 def matrix_case(case):
+    return _run_io(_matrix_case, case)
+
+
+def _matrix_case(case):
     op, form, pool, labelmap = case["op"], case["form"], case["pool"], case["labelmap"]
-    res = case_result(_h("m", op, case["tier"]), nontrivial=False, evals=0)
+    src = (case.get("io") or {}).get("name")
+    res = case_result(_h("m", op, case["tier"], src), nontrivial=False, evals=0)
     byid = {o["id"]: o for o in pool}
     cells = []
     skipped_div0 = 0
@@ -278,51 +635,66 @@ def matrix_case(case):
         sig = {"rule": rule, "op": op, "a": a["kind"], "b": b["kind"]}
         sig.update(extra)
         e = exprs[f"{a['id']}_{b['id']}"]
-        add_violation(res, sig, f"{rule}: {e} {what}",
-                      {"argv": replay_argv(e), "stdin": INPUT, "env": ENV, "expected": expected, "got": gotv,
+        add_violation(res, sig, f"{rule}: {e} {what}" + (f" [operands from {src}: {_stdin()!r}]" if src else ""),
+                      {"argv": replay_argv(e), "stdin": _stdin(), "env": ENV, "expected": expected, "got": gotv,
                        "expr": e})
 
+    unjudged = 0
+    only_symmetry = 0
     for (ia, ib), (k, txt) in K.items():
         a, b = byid[ia], byid[ib]
         ka, kb = a["kind"], b["kind"]
         if ka in NULLISH or kb in NULLISH or ka != kb:
-            nt.append(_h("m", op, a["expr"], b["expr"]))
+            nt.append(_h("m", op, a["expr"], b["expr"], src))
         if k == "SLOW":
             res["inconc"] += 1
             continue
         if k == "CRASH":
             viol("no-crash", a, b, "crashes the process", "a value", txt[-600:])
             continue
+        hit = []
+
+        def rule(name):
+            bump(res, name)
+            hit.append(name)
         # R-abs-abs
         if ka == "absent" and kb == "absent" and (op in ARITH or op in BITWISE or op == "." or op in MINMAX
                                                    or op in case["math2"]):
-            bump(res, "R-abs-abs")
+            rule("R-abs-abs")
             if k != "absent":
-                viol("R-abs-abs", a, b, f"is {k} ({txt!r}), not absent", "absent", [k, txt])
-        elif ka == "absent" and kb == "absent" and op == "^^":
-            bump(res, "R-abs-abs-bool")
+                viol("R-abs-abs", a, b, f"is {k} ({txt!r}), not absent", "absent", [k, txt], got=k)
+        elif ka == "absent" and kb == "absent" and (op == "^^" or op in COMPARE or op in REGEX):
+            # "arithmetic/bitwise/boolean operators with both operands being absent evaluate to absent"; the comparison and
+            # regex-match operators are class=boolean in the function help
+            rule("R-abs-abs-bool")
             if k != "absent":
                 viol("R-abs-abs-bool", a, b, f"is {k}, though the null-data reference says boolean operators with "
-                     "both operands absent are absent", "absent", [k, txt])
+                     "both operands absent are absent", "absent", [k, txt], got=k)
         # R-abs-id
         dom = abs_id_domain(op)
         for side, x, other in (("left", b, a), ("right", a, b)):   # side = where the absent operand is
             if other["kind"] == "absent" and x["kind"] in dom:
-                bump(res, "R-abs-id")
+                rule("R-abs-id")
                 if op == ".":
                     ok = (txt == x["text"]) and k in ("string", x["kind"])
                 else:
                     ok = (k == x["kind"]) and same_value(txt, x["text"])
                 if not ok:
                     cls = "kind" if (op != "." and k != x["kind"]) else "value"
+                    # got: the wrong kind, or for a value of the right kind whether it is zero or something else
+                    if cls == "kind":
+                        g = k
+                    else:
+                        v = parse_num(txt)
+                        g = "0" if (v is not None and v == 0) else "other-value"
                     viol("R-abs-id", a, b, f"is {k} {txt!r}; the present operand is {x['kind']} {x['text']!r}",
-                         [x["kind"], x["text"]], [k, txt], side=side, cls=cls)
+                         [x["kind"], x["text"]], [k, txt], side=side, cls=cls, got=g)
         # R-empty-num
         if op in EMPTYNUM or op in MINMAX:
             numdom = ("int", "float") if op in EMPTYNUM else ("int", "float", "boolean")
             for side, x, other in (("left", b, a), ("right", a, b)):   # side = where the empty operand is
                 if other["kind"] == "empty" and x["kind"] in numdom:
-                    bump(res, "R-empty-num")
+                    rule("R-empty-num")
                     if op in ("-", ".-") and side == "left":
                         if parse_num(x["text"]) == -(2 ** 63):
                             continue
@@ -333,30 +705,51 @@ def matrix_case(case):
                         exp = [x["kind"], x["text"]]
                     if not ok:
                         viol("R-empty-num", a, b, f"is {k} {txt!r}; empty with a number must yield the number", exp,
-                             [k, txt], side=side, x=x["kind"])
+                             [k, txt], side=side, x=x["kind"], got=k)
         # R-error
         if op not in COALESCE and op not in ("&&", "||"):
             if (ka == "error" and kb in SCALARS) or (kb == "error" and ka in SCALARS):
-                bump(res, "R-error")
+                rule("R-error")
                 if k != "error":
                     viol("R-error", a, b, f"is {k} {txt!r}; an error combined with a scalar must be an error", "error",
-                         [k, txt])
+                         [k, txt], got=k)
+        # R-type: the documented type rule for this cell, where there is one
+        if not (op in MINMAX and hit):         # min/max cells already judged above with the same expectation
+            exp = doc_expect(op, a, b, case["math2"], case.get("doctab"))
+            if exp is not None:
+                rule("R-type")
+                bad = judge_expect(exp, k, txt, [a, b])
+                if bad:
+                    viol("R-type", a, b, f"is {k} {txt!r}; the documentation says {bad} ({exp['cls']})", bad, [k, txt],
+                         cls=exp["cls"], got=k, nulls="+".join(sorted({ka, kb} & {"absent", "empty"})))
+        independent = bool(hit)
         # R-comm
         if op in COMMUTATIVE and ia < ib and (ib, ia) in K:
             k2, txt2 = K[(ib, ia)]
-            if k2 in ("SLOW", "CRASH"):
-                continue
-            bump(res, "R-comm")
-            if k != k2:
-                pair = "/".join(sorted([ka, kb]))
-                viol("R-comm", a, b, f"is {k} but with the operands swapped it is {k2}", "same kind both ways",
-                     {"a_op_b": [k, txt], "b_op_a": [k2, txt2]}, pair=pair)
-            elif k in ("int", "float", "boolean", "string", "empty") and not same_value(txt, txt2):
-                viol("R-comm-value", a, b, f"is {txt!r} but with the operands swapped it is {txt2!r}",
-                     "same value both ways", {"a_op_b": txt, "b_op_a": txt2}, pair="/".join(sorted([ka, kb])))
+            if k2 not in ("SLOW", "CRASH"):
+                rule("R-comm")
+                if k != k2:
+                    pair = "/".join(sorted([ka, kb]))
+                    viol("R-comm", a, b, f"is {k} but with the operands swapped it is {k2}", "same kind both ways",
+                         {"a_op_b": [k, txt], "b_op_a": [k2, txt2]}, pair=pair)
+                elif k in ("int", "float", "boolean", "string", "empty") and not same_value(txt, txt2):
+                    viol("R-comm-value", a, b, f"is {txt!r} but with the operands swapped it is {txt2!r}",
+                         "same value both ways", {"a_op_b": txt, "b_op_a": txt2}, pair="/".join(sorted([ka, kb])))
+        elif op in COMMUTATIVE and ia > ib and (ib, ia) in K:
+            hit.append("R-comm")
+        if not independent:
+            if hit:
+                only_symmetry += 1
+            else:
+                unjudged += 1
         # a FATAL cell that no rule above expected to be a value is recorded only
         if k == "FATAL":
             bump(res, "fatal_cells")
+            if not independent:
+                viol("no-fatal", a, b, f"aborts the process: {txt[-200:]!r}; evaluating an operator on any operand kinds "
+                     "yields a value (possibly an error value), it does not end the run", "a value", txt[-400:])
+    res["unjudged"] = {"op": op, "no_rule": unjudged, "only_symmetry": only_symmetry, "cells": len(K)}
+    bump(res, "cells_unjudged", unjudged + only_symmetry)
     res["nontrivial_keys"] = nt
     res["nontrivial"] = bool(nt)
     # compact kind matrix over the canonical operands (evidence: drift detection; also used for R-twin)
@@ -381,15 +774,31 @@ UNARY_OPS = ["-", "+", "~", "!"]
 SIDE_EFFECT = re.compile(r"^(urand|system|exec|os$|hostname|version|systime|sysntime|uptime|upntime)")
 
 
-def math_functions():
-    """{name: arity or 'variadic'} for class=math, from the binary's own help (run time)."""
-    r = R.mlr(["help", "usage-functions-by-class"], env=ENV)
-    out = {}
-    for line in r.out.split("\n"):
-        m = re.match(r"^(\S+)\s+\(class=math #args=([^)]+)\)", line)
-        if m and not SIDE_EFFECT.match(m.group(1)):
-            out[m.group(1)] = m.group(2)
-    return out
+DOC_FUNCS = "/repo/docs/src/reference-dsl-builtin-functions.md"
+
+
+def doc_function_classes():
+    """{name: (class, args)} as the function reference documents them (the specification), and the same as the binary's
+    help prints them; the judged sets are taken from the documentation so that a function the binary re-labels stays judged."""
+    doc, live = {}, {}
+    try:
+        text = open(DOC_FUNCS).read().replace("&lt;", "<").replace("&gt;", ">").replace("&amp;", "&")
+    except OSError:
+        text = ""
+    for src, out in ((text, doc), (R.mlr(["help", "usage-functions-by-class"], env=ENV).out, live)):
+        for line in src.split("\n"):
+            m = re.match(r"^(\S+)\s+\(class=(\S+) #args=([^)]+)\)", line)
+            if m:
+                out[m.group(1)] = (m.group(2), m.group(3))
+    return doc, live
+
+
+def math_functions(doc=None):
+    """{name: arity or 'variadic'} for class=math, from the function reference (falls back to the binary's help)."""
+    if doc is None:
+        doc, live = doc_function_classes()
+        doc = doc or live
+    return {f: a for f, (c, a) in doc.items() if c == "math" and not SIDE_EFFECT.match(f)}
 
 
 def unary_case(case):
@@ -444,6 +853,33 @@ def unary_case(case):
             if k != "empty":
                 viol("R-math-empty", f"is {k} {txt!r}; the null-data reference says math functions of empty are empty",
                      "empty")
+        # R-type (unary): numbers give numbers, non-numeric non-null scalars are a type error (data-types reference:
+        # "strings, numbers, and booleans don't mix", error = "input to a built-in function is of the wrong type")
+        ok_ = None
+        if o["kind"] in ("int", "float", "boolean", "string") and not _numlike(o):
+            v = parse_num(o["text"]) if o["kind"] in NUM else None
+            g = parse_num(txt) if k in NUM else None
+            if fname == "!":
+                want = ("boolean " + ("false" if o["text"] == "true" else "true")) if o["kind"] == "boolean" else "error"
+                ok_ = (k == "boolean" and txt == want[8:]) if o["kind"] == "boolean" else k == "error"
+            elif o["kind"] in WRONGTYPE:
+                want, ok_ = "error", k == "error"
+            elif kindf == "math":
+                want, ok_ = "int/float", k in NUM
+            elif fname == "~":
+                if o["kind"] == "int":
+                    want, ok_ = f"int {~v}", (k == "int" and g == ~v)
+            elif v is not None and v == v and not (fname == "-" and v == -(2 ** 63)):
+                w = -v if fname == "-" else v
+                want, ok_ = f"{o['kind']} {w}", (k == o["kind"] and g is not None and float(g) == float(w))
+        if ok_ is not None:
+            bump(res, "R-type")
+            if not ok_:
+                add_violation(res, {"rule": "R-type", "f": fname, "a": o["kind"], "got": k, "form": "unary"},
+                              f"R-type: {e} is {k} {txt!r}; the documentation says {want}",
+                              {"argv": replay_argv(e), "stdin": INPUT, "env": ENV, "expected": want, "got": [k, txt], "expr": e})
+        elif o["kind"] not in ("absent", "error", "empty") or (o["kind"] == "empty" and kindf != "math"):
+            bump(res, "cells_unjudged")
     res["nontrivial_keys"] = nt
     res["urow"] = {"f": fname, "row": "".join(row.get(k, "?") for k in KINDS)}
     return res
@@ -481,15 +917,16 @@ def mathn_case(case):
     return res
 
 
-def judged_functions():
-    """{name: (class, args)} of the named class=arithmetic and class=math functions (run time, from the help)."""
-    r = R.mlr(["help", "usage-functions-by-class"], env=ENV)
+def judged_functions(doc=None):
+    """{name: (class, args)} of the named class=arithmetic and class=math functions (from the function reference)."""
+    if doc is None:
+        doc, live = doc_function_classes()
+        doc = doc or live
     judged, others = {}, {}
-    for line in r.out.split("\n"):
-        m = re.match(r"^([a-z_][a-z_0-9]*)\s+\(class=(\S+) #args=([^)]+)\)", line)
-        if not m or SIDE_EFFECT.match(m.group(1)):
+    for f, (c, a) in doc.items():
+        if not re.fullmatch(r"[a-z_][a-z_0-9]*", f) or SIDE_EFFECT.match(f):
             continue
-        (judged if m.group(2) in ("arithmetic", "math") else others)[m.group(1)] = (m.group(2), m.group(3))
+        (judged if c in ("arithmetic", "math") else others)[f] = (c, a)
     return judged, others
 
 
@@ -513,6 +950,23 @@ def funcabs_exempt(f, n, sub):
     return False
 
 
+def _val_class(txt, present):
+    """how a wrong (non-absent) result of a function of an absent argument relates to the present arguments"""
+    v = parse_num(txt)
+    if v is None:
+        return "not-a-number"
+    if any(same_value(txt, p) for p in present):
+        return "other-argument"
+    return "zero" if v == 0 else "other-value"
+
+
+def _text_kind(txt):
+    v = parse_num(txt)
+    if v is None:
+        return "empty" if txt == "" else ("error" if txt == "(error)" else "string")
+    return "int" if isinstance(v, int) else "float"
+
+
 def funcabs_case(case):
     """R-func-abs: a class=arithmetic/math function with absent in ANY non-empty subset of its argument
     positions (the others being ordinary ints) is absent."""
@@ -529,13 +983,13 @@ def funcabs_case(case):
                         a = [(src if i in sub else vals[i]) for i in range(n)]
                         cid = f"{n}.{''.join(map(str, sub))}.{vi}.{si}"
                         cells.append((cid, f"{f}({', '.join(a)})"))
-                        meta[cid] = (n, sub)
+                        meta[cid] = (n, sub, [vals[i] for i in range(n) if i not in sub])
     got = eval_cells(cells, res)
     nt = []
     for cid, e in cells:
         lab, txt = got[cid]
         k = labelmap.get(lab, lab)
-        n, sub = meta[cid]
+        n, sub, present = meta[cid]
         res["evals"] += 1
         nt.append(_h("fa", e))
         if k == "SLOW":
@@ -547,7 +1001,8 @@ def funcabs_case(case):
         bump(res, "R-func-abs")
         if k != "absent":
             pos = "all" if len(sub) == n else "+".join(str(i + 1) for i in sub)
-            add_violation(res, {"rule": "R-func-abs", "f": f, "arity": n, "absent_at": pos, "got": k},
+            add_violation(res, {"rule": "R-func-abs", "f": f, "arity": n, "absent_at": pos, "got": k,
+                                "val": _val_class(txt, present)},
                           f"R-func-abs: {e} is {k} {txt!r}; a function of an absent argument must be absent "
                           "(reference-main-null-data.md)",
                           {"argv": replay_argv(e), "stdin": INPUT, "env": ENV, "expected": "absent", "got": [k, txt]})
@@ -610,7 +1065,9 @@ def funcabs_e2e_case(case):
             bump(res, "R-func-abs")
             if key in rec:
                 pos = "all" if len(sub) == n else "+".join(str(i + 1) for i in sub)
-                add_violation(res, {"rule": "R-func-abs", "f": f, "arity": n, "absent_at": pos, "what": "e2e"},
+                add_violation(res, {"rule": "R-func-abs", "f": f, "arity": n, "absent_at": pos, "what": "e2e",
+                                    "got": _text_kind(rec[key]),
+                                    "val": _val_class(rec[key], [vals[nm] for nm in names[:n] if nm in present])},
                               f"R-func-abs: `{one}` on a record lacking {sorted(missing)} created z={rec[key]!r}; the "
                               "assignment must be skipped", dict(detail, expected="no field z", got=rec[key]))
     res["nontrivial_keys"] = nt
@@ -630,6 +1087,12 @@ def variadic_case(case):
         cells.append(("z", f"{f}()"))
         for o in pool:
             cells.append((f"one_{o['id']}", f"{f}({o['expr']})"))
+    elif case["rows"] == "partition":
+        part = [o for o in pool if o["kind"] in ("int", "float", "boolean", "string") and not _isnan(o)]
+        for a in part:
+            for b in part:
+                cells.append((f"pmin_{a['id']}_{b['id']}", f"min({a['expr']}, {b['expr']})"))
+                cells.append((f"pmax_{a['id']}_{b['id']}", f"max({a['expr']}, {b['expr']})"))
     else:
         for a in case["rows"]:
             for b in canon:
@@ -663,12 +1126,50 @@ def variadic_case(case):
                                   {"argv": replay_argv(e), "stdin": INPUT, "env": ENV,
                                    "expected": [o["kind"], o["text"]], "got": [k, txt]})
             continue
+        if cid.startswith("pmin_"):
+            # the minimum and the maximum of a pair of ordinary (non-null) scalars are the two members of the pair
+            ia, ib = (int(x) for x in cid[5:].split("_"))
+            A, B = byid[ia], byid[ib]
+            k2, txt2 = kd("pmax_" + cid[5:])
+            res["evals"] += 1
+            nt.append(_h("vp", A["expr"], B["expr"]))
+            bump(res, "R-minmax-partition")
+            if "SLOW" in (k, k2):
+                res["inconc"] += 1
+                continue
+
+            def same(k_, t_, o):
+                if k_ in NUM and o["kind"] in NUM:
+                    return same_value(t_, o["text"]) and (k_ == o["kind"] or A["kind"] != B["kind"])
+                return k_ == o["kind"] and t_ == o["text"]
+            ok = (same(k, txt, A) and same(k2, txt2, B)) or (same(k, txt, B) and same(k2, txt2, A))
+            if not ok:
+                add_violation(res, {"rule": "R-minmax-partition", "a": A["kind"], "b": B["kind"], "got": f"{k}/{k2}"},
+                              f"R-minmax-partition: {e} is {k} {txt!r} and {exprs['pmax_' + cid[5:]]} is {k2} {txt2!r}: "
+                              f"not the two arguments {A['kind']} {A['text']!r}, {B['kind']} {B['text']!r}",
+                              {"argv": replay_argv(e), "stdin": INPUT, "env": ENV,
+                               "expected": [[A["kind"], A["text"]], [B["kind"], B["text"]]], "got": [[k, txt], [k2, txt2]]})
+            continue
+        if cid.startswith("pmax_"):
+            continue
         if cid.startswith("t_"):
             res["evals"] += 1
             k2, txt2 = kd("n_" + cid[2:])
             ids = [int(x) for x in cid[2:].split("_")]
             kinds = [byid[i]["kind"] for i in ids]
             nt.append(_h("v3", f, cid))
+            if k not in ("SLOW", "CRASH"):
+                exp = minmax_model(f, [byid[i] for i in ids])
+                if exp is None:
+                    bump(res, "cells_unjudged")
+                else:
+                    bump(res, "R-minmax")
+                    bad = judge_expect(exp, k, txt, [byid[i] for i in ids])
+                    if bad:
+                        add_violation(res, {"rule": "R-minmax", "op": f, "cls": exp["cls"], "got": k, "arity": 3,
+                                            "kinds": "/".join(kinds)},
+                                      f"R-minmax: {e} is {k} {txt!r}; the documentation says {bad} ({exp['cls']})",
+                                      {"argv": replay_argv(e), "stdin": INPUT, "env": ENV, "expected": bad, "got": [k, txt]})
             bump(res, "R-variadic-fold")
             if "SLOW" in (k, k2):
                 res["inconc"] += 1
@@ -695,8 +1196,9 @@ ABSENT_SOURCES = [
 ]
 CONTROLS = [("int", "3"), ("empty", '""'), ("string", '"abc"'), ("null", "null"), ("float", "2.5")]
 
-OPASSIGN = ["+=", "-=", "*=", "/=", "//=", "%=", "**=", ".=", "min=", "max=", "|=", "&=", "^=", "<<=", ">>=", ">>>=",
-            "??=", "???=", "&&=", "||="]
+# the compound assignment operators of the Miller 6 grammar (fixed list: one that stops parsing is a violation)
+OPASSIGN = ["+=", "-=", "*=", "/=", "//=", "%=", "**=", ".=", "|=", "&=", "^=", "<<=", ">>=", ">>>=",
+            "??=", "???=", "&&=", "||=", "^^="]
 
 
 def assign_forms():
@@ -730,6 +1232,28 @@ def assign_forms():
         "positional-name": ("${T} = 2; $[[NF]] = {R};", 'haskey($*, "{T}")', "$[[NF]]", "{T}", "neg-has"),
         "positional-value": ("${T} = 2; $[[[NF]]] = {R};", None, "$[[[NF]]]", "2", "full"),
         "function-return": ("${T} = fid({R});", 'haskey($*, "{T}")', "${T}", None, "full"),
+        # indirect (computed-name) targets, typed locals, bound variables, whole-record / whole-oosvar targets, ENV
+        "field-indirect-new": ('$["{T}"] = {R};', 'haskey($*, "{T}")', "${T}", None, "full"),
+        "field-indirect-existing": ('$["{T}"] = 7; $["{T}"] = {R};', None, "${T}", "7", "full"),
+        "field-indirect-computed": ('$["{T}" . "x"] = {R};', 'haskey($*, "{T}x")', "${T}x", None, "full"),
+        "oosvar-indirect-new": ('@["{T}"] = {R};', 'haskey(@*, "{T}")', "@{T}", None, "full"),
+        "oosvar-indirect-existing": ('@["{T}"] = 7; @["{T}"] = {R};', None, "@{T}", "7", "full"),
+        "oosvar-indirect-computed": ('@["{T}" . "x"] = {R};', 'haskey(@*, "{T}x")', "@{T}x", None, "full"),
+        "env-existing": ('ENV["VF{T}"] = "old"; ENV["VF{T}"] = {R};', None, 'ENV["VF{T}"]', "old", "own"),
+        "local-typed-num-existing": ("num {T} = 5; {T} = {R};", None, "{T}", "5", "own"),
+        "local-typed-str-existing": ('str {T} = "old"; {T} = {R};', None, "{T}", "old", "own"),
+        "local-typed-map-existing": ('map {T} = {{"a": 1}}; {T} = {R};', None, '{T}["a"]', "1", "own"),
+        "local-typed-num-new": ("num {T} = {R};", 'haskey({{"k": {T}}}, "k")', "{T}", None, "own"),
+        "for-bound-value-variable": ('var {T} = 0; for (k{T}, v{T} in {{"a": 5}}) {{ v{T} = {R}; {T} = v{T}; }}', None, "{T}",
+                                     "5", "full"),
+        "for-bound-single-variable": ("var {T} = 0; for (e{T} in [5]) {{ e{T} = {R}; {T} = e{T}; }}", None, "{T}", "5", "full"),
+        "func-body-local": ("", None, "fkeep({R})", "5", "full"),
+        "func-body-typed-local": ("", None, "fkeepn({R})", "5", "own"),
+        "srec-full-assign": ("var sv{T} = $*; $* = {R}; var ob{T} = $*; $* = sv{T};", None, 'ob{T}["i"]', "3", "own"),
+        "srec-full-assign-map-with-absent-value": ('var sv{T} = $*; $* = {{"i": 3, "{T}": {R}}}; var ob{T} = $*; $* = sv{T};',
+                                                   'haskey(ob{T}, "{T}")', 'ob{T}["{T}"]', None, "full"),
+        "oosvar-full-assign": ("@keep{T} = 7; @* = {R};", None, "@keep{T}", "7", "own"),
+        "oosvar-full-mapsum": ('@* = mapsum(@*, {{"{T}": {R}}});', 'haskey(@*, "{T}")', "@{T}", None, "full"),
     }
     for op in OPASSIGN:
         F["field-" + op] = ("${T} " + op + " {R};", 'haskey($*, "{T}")', "${T}", None, "has")
@@ -737,45 +1261,82 @@ def assign_forms():
     return F
 
 
-ABSENT_KEY_FORMS = {
-    # absent-valued *keys* also skip the assignment (null-data reference)
-    "local-map-absent-key": ("var {T} = {{}}; {T}[{R}] = 1;", "length({T})", "0"),
-    "oosvar-absent-key": ("@{T}[{R}][1] = 1;", 'haskey(@*, "{T}")', "false"),
-    "srec-absent-key": ("var n{T} = length($*); $*[{R}] = 1;", "length($*) - n{T}", "0"),
-    "oosvar-absent-second-key": ("@{T}[1][{R}] = 1;", 'haskey(@*, "{T}")', "false"),
+# controls of the forms whose target does not accept the generic CONTROLS: (kind, expression template, expected text)
+FORM_CONTROLS = {
+    "env-existing": [("string", '"abc"', "abc"), ("string", '"x y"', "x y")],      # environment values are strings
+    "local-typed-num-existing": [("int", "3", "3"), ("float", "2.5", "2.5")],
+    "local-typed-str-existing": [("string", '"abc"', "abc"), ("empty", '""', "")],
+    "local-typed-map-existing": [("int", '{{"a": 9}}', "9")],
+    "local-typed-num-new": [("int", "3", "3"), ("float", "2.5", "2.5")],
+    "func-body-typed-local": [("int", "3", "3"), ("float", "2.5", "2.5")],
+    "srec-full-assign": [("int", '{{"i": 99}}', "99")],
+    "oosvar-full-assign": [("int", 'mapsum(@*, {{"keep{T}": 99}})', "99")],
 }
+
+ABSENT_KEY_FORMS = {
+    # absent-valued *keys* also skip the assignment (null-data reference): (statements, observed expression, its text
+    # when the key is absent, its text when the key is the string "kc" (control: the observation is not vacuous))
+    "local-map-absent-key": ("var {T} = {{}}; {T}[{R}] = 1;", "length({T})", "0", "1"),
+    "oosvar-absent-key": ("@{T}[{R}][1] = 1;", 'haskey(@*, "{T}")', "false", "true"),
+    "srec-absent-key": ("var n{T} = length($*); $*[{R}] = 1;", "length($*) - n{T}", "0", "1"),
+    "oosvar-absent-second-key": ("@{T}[1][{R}] = 1;", 'haskey(@*, "{T}")', "false", "true"),
+    "local-map-absent-second-key": ('var {T} = {{}}; {T}["a"][{R}] = 1;', "length({T})", "0", "1"),
+    "oosvar-absent-third-key": ("@{T}[1][2][{R}] = 1;", 'haskey(@*, "{T}")', "false", "true"),
+    "field-indexed-absent-key": ("${T}[{R}] = 1;", 'haskey($*, "{T}")', "false", "true"),
+    "field-indirect-absent-name": ("var n{T} = length($*); $[{R}] = 1;", "length($*) - n{T}", "0", "1"),
+    "oosvar-indirect-absent-name": ("var n{T} = length(@*); @[{R}] = 1;", "length(@*) - n{T}", "0", "1"),
+    "map-literal-absent-key": ('var {T} = {{{R}: 1, "k": 2}};', "length({T})", "1", "2"),
+    "map-literal-absent-key-only": ("var {T} = {{{R}: 1}};", "length({T})", "0", "1"),
+    "map-literal-absent-key-mapsum-srec": ("var n{T} = length($*); $* = mapsum($*, {{{R}: 1}});", "length($*) - n{T}", "0", "1"),
+    "map-literal-absent-key-mapsum-oosvar": ("var n{T} = length(@*); @* = mapsum(@*, {{{R}: 1}});", "length(@*) - n{T}", "0", "1"),
+    "map-literal-absent-key-nested": ('var {T} = {{"o": {{{R}: 1}}}};', 'length({T}["o"])', "0", "1"),
+    "map-literal-absent-key-emit": ('@{T} = {{{R}: 1, "k": 2}};', "length(@{T})", "1", "2"),
+}
+
+
+def _block_ok(text):
+    return "$" not in text and "NF" not in text
 
 
 def assign_case(case):
     name, labelmap = case["form"], case["labelmap"]
-    res = case_result(_h("a", name, case["tier"]), nontrivial=True, evals=0)
+    block = case.get("block")          # None (main block) | "begin" | "end"
+    res = case_result(_h("a", name, block, case["tier"]), nontrivial=True, evals=0)
     units = []
     meta = {}
+    sources = [s_ for s_ in case["sources"] if not block or _block_ok(s_)]
     if name in ABSENT_KEY_FORMS:
-        tmpl, obs, exp = ABSENT_KEY_FORMS[name]
-        for n, src in enumerate(case["sources"]):
+        tmpl, obs, exp, cexp = ABSENT_KEY_FORMS[name]
+        for n, src in enumerate(sources + ['"kc"']):
             T = f"t{n}"
             uid = f"k{n}"
-            units.append((uid, tmpl.format(T=T, R="(" + src + ")"), [(uid + ".o", obs.format(T=T))]))
-            meta[uid] = ("abskey", src, tmpl.format(T=T, R="(" + src + ")"), exp)
+            isctl = n == len(sources)
+            stm = tmpl.format(T=T, R="(" + src + ")")
+            units.append((uid, stm, [(uid + ".o", obs.format(T=T))]))
+            meta[uid] = ("abskey-ctl" if isctl else "abskey", src, stm, cexp if isctl else exp)
     else:
         tmpl, has, val, old, ctl = assign_forms()[name]
-        rhs = [("absent", s, None) for s in case["sources"]] + [("ctl", e, k) for k, e in CONTROLS]
-        if name.endswith(("&&=", "||=")):
-            rhs = [("absent", s, None) for s in case["sources"]] + [("ctl", "true", "boolean")]
+        rhs = [("absent", s_, None, None) for s_ in sources]
+        if name in FORM_CONTROLS:
+            rhs += [("ctl", e, k, x) for k, e, x in FORM_CONTROLS[name]]
+        elif name.endswith(("&&=", "||=", "^^=")):
+            rhs += [("ctl", "true", "boolean", None)]
         elif ctl == "has":
             # op-assignment: `absent op ""` and `absent op null` are legitimately absent; a number always stores
-            rhs = [("absent", s, None) for s in case["sources"]] + [("ctl", "3", "int"), ("ctl", "2.5", "float")]
-        for n, (what, src, ck) in enumerate(rhs):
+            rhs += [("ctl", "3", "int", None), ("ctl", "2.5", "float", None)]
+        else:
+            rhs += [("ctl", e, k, None) for k, e in CONTROLS]
+        for n, (what, src, ck, cx) in enumerate(rhs):
             T = f"t{n}"
             uid = f"u{n}"
-            stm = tmpl.format(T=T, R="(" + src + ")")
-            obs = [(uid + ".v", val.format(T=T))]
+            Rx = "(" + (src.format(T=T) if cx is not None else src) + ")"
+            stm = tmpl.format(T=T, R=Rx)
+            obs = [(uid + ".v", val.format(T=T, R=Rx))]
             if has:
-                obs.append((uid + ".h", has.format(T=T)))
+                obs.append((uid + ".h", has.format(T=T, R=Rx)))
             units.append((uid, stm, obs))
-            meta[uid] = (what, src, stm, ck)
-    got = eval_units(units, res)
+            meta[uid] = (what, src, stm, (ck, cx))
+    got = eval_units(units, res, wrap=block)
     nt = []
 
     def kd(cid):
@@ -784,54 +1345,61 @@ def assign_case(case):
     for uid, stm, obs in units:
         what, src, _, extra = meta[uid]
         res["evals"] += 1
-        detail = {"argv": ["--ijson", "--ojson", "put", "-q", PRELUDE + stm + " " +
-                           " ".join(f"print typeof({e}); print {e};" for _, e in obs)],
-                  "stdin": INPUT, "env": ENV, "statement": stm}
+        body = stm + " " + " ".join(f"print typeof({e}); print {e};" for _, e in obs)
+        prog = PRELUDE + body if not block else PRELUDE_FUNCS + block + " {" + PRELUDE_LOCALS + body + "}"
+        detail = {"argv": ["--ijson", "--ojson", "put", "-q", prog], "stdin": INPUT, "env": ENV, "statement": stm}
+        sigx = {"block": block} if block else {}
         first = kd(obs[0][0])
         if first[0] == "SLOW":
             res["inconc"] += 1
             continue
-        if what == "abskey":
-            nt.append(_h("a", name, src))
-            bump(res, "R-assign-skip")
+        if what in ("abskey", "abskey-ctl"):
             k, txt = first
+            if what == "abskey":
+                nt.append(_h("a", name, block, src))
+                bump(res, "R-assign-skip")
+            else:
+                bump(res, "assign-control")
             if k in ("FATAL", "CRASH"):
                 if k == "CRASH":
-                    add_violation(res, {"rule": "no-crash", "form": name}, f"no-crash: {stm} crashes", dict(detail, got=txt))
-                elif "cannot parse" in txt:
-                    res["skipped"] += 1     # not in this grammar
+                    add_violation(res, dict(sigx, rule="no-crash", form=name), f"no-crash: {stm} crashes", dict(detail, got=txt))
+                elif what == "abskey-ctl":
+                    add_violation(res, dict(sigx, rule="assign-control", form=name, what="fatal"),
+                                  f"assign-control: `{stm}` (present key) aborts: {txt[-200:]!r}", dict(detail, got=txt))
                 else:
-                    add_violation(res, {"rule": "R-assign-skip", "form": name, "what": "absent-key-fatal"},
+                    add_violation(res, dict(sigx, rule="R-assign-skip", form=name, what="absent-key-fatal"),
                                   f"R-assign-skip: `{stm}` (absent key) aborts instead of being skipped: {txt[-200:]!r}",
                                   dict(detail, got=txt))
                 continue
             if txt != extra:
-                add_violation(res, {"rule": "R-assign-skip", "form": name, "what": "absent-key"},
-                              f"R-assign-skip: after `{stm}` (absent key) `{obs[0][1]}` is {txt!r}, expected {extra!r}",
-                              dict(detail, expected=extra, got=txt))
+                if what == "abskey-ctl":
+                    add_violation(res, dict(sigx, rule="assign-control", form=name, what="present-key"),
+                                  f"assign-control: after `{stm}` (present key) `{obs[0][1]}` is {txt!r}, expected {extra!r}",
+                                  dict(detail, expected=extra, got=txt))
+                else:
+                    add_violation(res, dict(sigx, rule="R-assign-skip", form=name, what="absent-key"),
+                                  f"R-assign-skip: after `{stm}` (absent key) `{obs[0][1]}` is {txt!r}, expected {extra!r}",
+                                  dict(detail, expected=extra, got=txt))
             continue
+        ck, cx = extra
         k, txt = first
         hk = kd(obs[1][0]) if len(obs) > 1 else None
         if k == "FATAL":
-            if "cannot parse" in txt:
-                # a form this grammar does not have is outside the domain
-                res["skipped"] += 1
-                res.setdefault("rejected", []).append(name)
-            elif what == "absent":
-                nt.append(_h("a", name, src))
+            if what == "absent":
+                nt.append(_h("a", name, block, src))
                 bump(res, "R-assign-skip")
-                add_violation(res, {"rule": "R-assign-skip", "form": name, "what": "absent-rhs-fatal"},
+                add_violation(res, dict(sigx, rule="R-assign-skip", form=name, what="absent-rhs-fatal"),
                               f"R-assign-skip: `{stm}` aborts instead of being skipped: {txt[-200:]!r}", dict(detail, got=txt))
             else:
-                add_violation(res, {"rule": "assign-control", "form": name, "ctl": extra, "what": "fatal"},
+                add_violation(res, dict(sigx, rule="assign-control", form=name, ctl=ck, what="fatal"),
                               f"assign-control: `{stm}` aborts: {txt[-200:]!r}", dict(detail, got=txt))
             continue
         if k == "CRASH":
-            add_violation(res, {"rule": "no-crash", "form": name}, f"no-crash: {stm} crashes", dict(detail, got=txt))
+            add_violation(res, dict(sigx, rule="no-crash", form=name), f"no-crash: {stm} crashes", dict(detail, got=txt))
             continue
         tmpl, has, val, old, ctl = assign_forms()[name]
         if what == "absent":
-            nt.append(_h("a", name, src))
+            nt.append(_h("a", name, block, src))
             bump(res, "R-assign-skip")
             bad = None
             if old is None:
@@ -846,30 +1414,108 @@ def assign_case(case):
                 if hk[1] != want_has:
                     bad = f"`{obs[1][1]}` is {hk[1]!r}, expected {want_has} (a key was created or lost)"
             if bad:
-                add_violation(res, {"rule": "R-assign-skip", "form": name, "what": "absent-rhs"},
+                add_violation(res, dict(sigx, rule="R-assign-skip", form=name, what="absent-rhs", got=k),
                               f"R-assign-skip: after `{stm}` {bad}", dict(detail, got=[k, txt, hk]))
         else:
             # control: a present right-hand side IS stored (keeps the skip observations from being vacuous)
             bump(res, "assign-control")
             bad = None
-            if ctl == "full":
+            if cx is not None:
+                if k != ck or txt != cx:
+                    bad = f"`{obs[0][1]}` is {k} {txt!r}, expected {ck} {cx!r}"
+                elif hk is not None and hk[1] != "true":
+                    bad = f"`{obs[1][1]}` is {hk[1]!r}, expected true"
+            elif ctl == "full":
                 cexp = eval_text_of(src)
-                if k != extra or txt != cexp:
-                    bad = f"`{obs[0][1]}` is {k} {txt!r}, expected {extra} {cexp!r}"
+                if k != ck or txt != cexp:
+                    bad = f"`{obs[0][1]}` is {k} {txt!r}, expected {ck} {cexp!r}"
                 elif hk is not None and hk[1] != "true":
                     bad = f"`{obs[1][1]}` is {hk[1]!r}, expected true"
             elif ctl == "has":
                 if hk is not None and hk[1] != "true" and k != "error":
                     bad = f"`{obs[1][1]}` is {hk[1]!r}, expected true"
             elif ctl == "neg-has":
-                if extra == "string" and (hk[1] != "false" or txt != eval_text_of(src)):
+                if ck == "string" and (hk[1] != "false" or txt != eval_text_of(src)):
                     bad = f"field was not renamed: name is {txt!r}, old key present: {hk[1]!r}"
             if bad:
-                add_violation(res, {"rule": "assign-control", "form": name, "ctl": extra},
+                add_violation(res, dict(sigx, rule="assign-control", form=name, ctl=ck),
                               f"assign-control: after `{stm}` {bad}", dict(detail, got=[k, txt, hk]))
     res["nontrivial_keys"] = nt
-    if name == "oosvar-new":
+    if name == "oosvar-new" and not block:
         res["sample"] = {"monitor": "a", "form": name, "statements": [u[1] for u in units[:3]]}
+    return res
+
+
+ABSKEY_BASES = {
+    # base -> (setup statements, lvalue prefix, observed expression, text when nothing was stored, text when stored)
+    "field": ("", "${T}", 'haskey($*, "{T}")', "false", "true"),
+    "oosvar": ("", "@{T}", 'haskey(@*, "{T}")', "false", "true"),
+    "local": ("var {T} = {{}};", "{T}", "length({T})", "0", "1"),
+    "map-element": ('var {T} = {{"m": {{}}}};', '{T}["m"]', 'length({T}["m"])', "0", "1"),
+}
+ABSKEY_OPS = {"=": "1", "+=": "1", ".=": '"x"'}
+ABSKEY_PRESENT = ['"a"', "2", '"c"']
+
+
+def abskey_case(case):
+    """Indexed assignment (plain and compound) with an absent-valued key at every index depth 1..3 and every position,
+    on field, oosvar, local and map-element bases: the assignment is skipped and nothing is auto-created
+    ('absent-valued keys or values result in a skipped assignment'); with a present key in the same position it stores."""
+    base, op, labelmap, block = case["base"], case["op"], case["labelmap"], case.get("block")
+    res = case_result(_h("ak", base, op, block, case["tier"]), nontrivial=True, evals=0)
+    setup, prefix, obs, exp0, exp1 = ABSKEY_BASES[base]
+    sources = [s_ for s_ in case["sources"] if not block or _block_ok(s_)]
+    units, meta = [], {}
+    for d in (1, 2, 3):
+        for pos in range(d):
+            for n, src in enumerate(sources + ['"kc"']):
+                T = f"t{d}{pos}x{n}"
+                idx = "".join(f"[({src})]" if i == pos else f"[{ABSKEY_PRESENT[i]}]" for i in range(d))
+                stm = (setup.format(T=T) + " " + prefix.format(T=T) + idx + f" {op} {ABSKEY_OPS[op]};").strip()
+                uid = f"k{d}{pos}x{n}"
+                units.append((uid, stm, [(uid + ".o", obs.format(T=T))]))
+                meta[uid] = (d, pos, src, n == len(sources))
+    got = eval_units(units, res, wrap=block)
+    nt = []
+    for uid, stm, ob in units:
+        d, pos, src, isctl = meta[uid]
+        lab, txt = got[ob[0][0]]
+        k = labelmap.get(lab, lab)
+        res["evals"] += 1
+        body = stm + f" print {ob[0][1]};"
+        prog = PRELUDE + body if not block else PRELUDE_FUNCS + block + " {" + PRELUDE_LOCALS + body + "}"
+        detail = {"argv": ["--ijson", "--ojson", "put", "-q", prog], "stdin": INPUT, "env": ENV, "statement": stm}
+        sig = {"form": "indexed-absent-key", "base": base, "depth": d, "pos": pos + 1, "op": op}
+        if block:
+            sig["block"] = block
+        if k == "SLOW":
+            res["inconc"] += 1
+            continue
+        if not isctl:
+            nt.append(_h("ak", base, op, block, d, pos, src))
+            bump(res, "R-assign-skip")
+        else:
+            bump(res, "assign-control")
+        if k == "CRASH":
+            add_violation(res, dict(sig, rule="no-crash"), f"no-crash: {stm} crashes", dict(detail, got=txt))
+        elif k == "FATAL":
+            if isctl:
+                add_violation(res, dict(sig, rule="assign-control", what="fatal"),
+                              f"assign-control: `{stm}` (present keys) aborts: {txt[-200:]!r}", dict(detail, got=txt))
+            else:
+                add_violation(res, dict(sig, rule="R-assign-skip", what="absent-key-fatal"),
+                              f"R-assign-skip: `{stm}` (absent key at index {pos + 1} of {d}) aborts instead of being skipped: "
+                              f"{txt[-200:]!r}", dict(detail, got=txt))
+        elif txt != (exp1 if isctl else exp0):
+            if isctl:
+                add_violation(res, dict(sig, rule="assign-control", what="present-key"),
+                              f"assign-control: after `{stm}` (present keys) `{ob[0][1]}` is {txt!r}, expected {exp1!r}",
+                              dict(detail, expected=exp1, got=txt))
+            else:
+                add_violation(res, dict(sig, rule="R-assign-skip", what="absent-key"),
+                              f"R-assign-skip: after `{stm}` (absent key at index {pos + 1} of {d}) `{ob[0][1]}` is {txt!r}, "
+                              f"expected {exp0!r}: something was stored or auto-created", dict(detail, expected=exp0, got=txt))
+    res["nontrivial_keys"] = nt
     return res
 
 
@@ -1116,8 +1762,13 @@ PAIRS = [("is_array", "is_not_array"), ("is_map", "is_not_map"), ("is_null", "is
 
 
 def pred_case(case):
+    return _run_io(_pred_case, case)
+
+
+def _pred_case(case):
     pool, labelmap, preds = case["pool"], case["labelmap"], case["preds"]
-    res = case_result(_h("p", case["tier"]), nontrivial=True, evals=0)
+    src = (case.get("io") or {}).get("name")
+    res = case_result(_h("p", case["tier"], src), nontrivial=True, evals=0)
     cells = []
     for o in pool:
         for p in preds:
@@ -1131,7 +1782,7 @@ def pred_case(case):
             lab, txt = got[f"{p}.{o['id']}"]
             res["evals"] += 1
             e = f"{p}({o['expr']})"
-            detail = {"argv": replay_argv(e), "stdin": INPUT, "env": ENV}
+            detail = {"argv": replay_argv(e), "stdin": _stdin(), "env": ENV}
             if lab in ("SLOW",):
                 res["inconc"] += 1
                 continue
@@ -1142,7 +1793,7 @@ def pred_case(case):
             v = txt == "true"
             row[p] = v
             exp = _pred_expected(p, o)
-            nt.append(_h("p", p, o["expr"]))
+            nt.append(_h("p", p, o["expr"], src))
             if exp is None:
                 bump(res, "pred_cells_unjudged")
                 continue
@@ -1160,21 +1811,21 @@ def pred_case(case):
             if len(prim) != want:
                 add_violation(res, {"rule": "R-pred", "what": "partition", "a": o["kind"]},
                               f"R-pred: for {o['expr']} the primary kind predicates that hold are {prim} (expected exactly {want})",
-                              {"argv": replay_argv(o["expr"]), "stdin": INPUT, "env": ENV, "got": prim})
+                              {"argv": replay_argv(o["expr"]), "stdin": _stdin(), "env": ENV, "got": prim})
         for a, b in PAIRS:
             if a in row and b in row and row[a] == row[b]:
                 add_violation(res, {"rule": "R-pred", "what": "complement", "pred": a, "a": o["kind"]},
                               f"R-pred: {a} and {b} agree ({row[a]}) on {o['expr']}",
-                              {"argv": replay_argv(f"{a}({o['expr']}) . {b}({o['expr']})"), "stdin": INPUT, "env": ENV})
+                              {"argv": replay_argv(f"{a}({o['expr']}) . {b}({o['expr']})"), "stdin": _stdin(), "env": ENV})
         if all(p in row for p in ("is_numeric", "is_int", "is_float")) and row["is_numeric"] != (row["is_int"] or row["is_float"]):
             add_violation(res, {"rule": "R-pred", "what": "numeric", "a": o["kind"]},
                           f"R-pred: is_numeric != is_int or is_float on {o['expr']}",
-                          {"argv": replay_argv(f"is_numeric({o['expr']})"), "stdin": INPUT, "env": ENV})
+                          {"argv": replay_argv(f"is_numeric({o['expr']})"), "stdin": _stdin(), "env": ENV})
         if all(p in row for p in ("is_null", "is_empty", "is_absent")) and o["kind"] != "null" and \
                 row["is_null"] != (row["is_empty"] or row["is_absent"]):
             add_violation(res, {"rule": "R-pred", "what": "null", "a": o["kind"]},
                           f"R-pred: is_null != is_empty or is_absent on {o['expr']}",
-                          {"argv": replay_argv(f"is_null({o['expr']})"), "stdin": INPUT, "env": ENV})
+                          {"argv": replay_argv(f"is_null({o['expr']})"), "stdin": _stdin(), "env": ENV})
     res["nontrivial_keys"] = nt
     res["ptable"] = table
     return res
@@ -1276,11 +1927,13 @@ def doc_case(case):
     try:
         text = open(DOC_NULL).read()
     except OSError:
-        res["skipped"] += 1
-        return res
+        text = ""
     tables, block = parse_doc_tables(text)
-    if not tables:
-        res["skipped"] += 1
+    if not tables or not all(t in tables for t in ("+", "&&", "||")):
+        res["evals"] += 1
+        add_violation(res, {"rule": "R-doc-table", "what": "tables-not-found"},
+                      f"R-doc-table: the + && || tables cannot be read from {DOC_NULL}: nothing to compare with",
+                      {"argv": ["help", "type-arithmetic-info-extended"], "stdin": ""})
         return res
     cells = []
     exp = {}
@@ -1323,9 +1976,11 @@ def doc_case(case):
     res["evals"] += 1
     bump(res, "R-doc-table")
     norm = lambda s: "\n".join(l.rstrip() for l in s.strip().split("\n"))
-    if r.ok and norm(r.out) != norm(block):
+    if r.verdict == "slow":
+        res["inconc"] += 1
+    elif not r.ok or norm(r.out) != norm(block):
         add_violation(res, {"rule": "R-doc-table", "op": "help-output"},
-                      "R-doc-table: `mlr help type-arithmetic-info-extended` differs from the block recorded in the docs",
+                      f"R-doc-table: `mlr help type-arithmetic-info-extended` (rc={r.rc}) differs from the block recorded in the docs",
                       {"argv": ["help", "type-arithmetic-info-extended"], "stdin": "", "expected": block, "got": r.out})
     res["nontrivial_keys"] = nt
     res["sample"] = {"monitor": "d", "tables": {op: len(rows) * len(cols) for op, (cols, rows) in tables.items()}}
@@ -1355,34 +2010,70 @@ def run(chk):
     chk.rule = ("every cell (operator or function, operand, operand) of the finite matrix is enumerated: "
                 f"{len(pool)} operands covering the 12 kinds {KINDS} (quick: one canonical operand per kind + second sources of "
                 "absent/empty/null/false; thorough: boundary values inside each kind) x all binary operators, unary operators, "
-                "class=math functions, variadic min/max at arity 0-3, assignment forms x absent sources, is_*/asserting_* x operands, "
-                "plus seeded random accumulation workloads. Non-trivial = at least one operand is absent, empty, error or JSON null, "
+                "class=math functions, variadic min/max at arity 0-3 (judged against a model of the documented collation, plus the "
+                "pair-partition law), assignment forms (direct, indirect $[...]/@[...], ENV, typed locals, bound variables, $* and @*, "
+                "in the main, begin and end blocks) x absent sources, indexed assignments with an absent key at every depth 1-3 and "
+                "position on field/oosvar/local/map-element bases (= += .=), map literals with absent keys, is_*/asserting_* x operands, "
+                "the same matrix and predicates over operands read from DKVP and CSV files, plus seeded random accumulation workloads. Non-trivial = at least one operand is absent, empty, error or JSON null, "
                 "or the operand kinds differ (assignment cells: the right-hand side or key is absent; accumulation: some record lacks "
                 "the field or has it empty). Distinct = by (monitor, operator, operand expressions).")
     fl = R.mlr(["help", "list-functions"], env=ENV)
     known = set(fl.out.split())
-    mf = math_functions()
+    docf, livef = doc_function_classes()
+    if not docf:
+        chk.add_violation({"rule": "calibration", "what": "function-reference-unreadable"},
+                          f"calibration: no function signatures can be read from {DOC_FUNCS}", {"argv": ["help", "list-functions"], "stdin": ""})
+        docf = livef
+    for f in sorted(set(docf) | set(livef)):
+        if docf.get(f) != livef.get(f):
+            chk.add_violation({"rule": "function-class", "f": f, "doc": list(docf.get(f) or ()), "help": list(livef.get(f) or ())},
+                              f"function-class: {f} is documented as {docf.get(f)} but `mlr help usage-functions-by-class` says "
+                              f"{livef.get(f)} (the judged function sets follow the documentation)",
+                              {"argv": ["help", "function", f], "stdin": ""})
+    chk.stats["function-class"] = len(set(docf) | set(livef))
+    for op in INFIX + UNARY_OPS:
+        if op not in known:
+            chk.add_violation({"rule": "operator-missing", "op": op},
+                              f"operator-missing: the documented operator {op} is not in `mlr help list-functions`",
+                              {"argv": ["help", "list-functions"], "stdin": ""})
+    mf = math_functions(docf)
     math1 = sorted(f for f, n in mf.items() if n == "1")
     math2 = sorted(f for f, n in mf.items() if n == "2")
     math3 = sorted(f for f, n in mf.items() if n == "3")
     chk.extra["math_functions"] = {"arity1": math1, "arity2": math2, "arity3": math3}
-    infix = [op for op in INFIX if op in known]
-    chk.extra["operators_not_in_this_binary"] = [op for op in INFIX if op not in known]
+    infix = list(INFIX)
     modelled = set(INFIX) | set(UNARY_OPS) | {"?:"}
     chk.extra["operators_unmodelled"] = sorted(f for f in known if not re.match(r"^[a-z_0-9]+$", f) and f not in modelled)
 
     if not only or "m" in only:
         cases = []
+        doctab = {}
+        try:
+            tables, _ = parse_doc_tables(open(DOC_NULL).read())
+        except OSError:
+            tables = None
+        for top, (cols, rows) in (tables or {}).items():
+            doctab[top] = {(rt, ct): v for rt, vals in rows if len(vals) == len(cols) for ct, v in zip(cols, vals)}
+        if not all(t in doctab and len(doctab[t]) == 36 for t in ("+", "&&", "||")):
+            chk.add_violation({"rule": "R-doc-table", "what": "tables-not-found"},
+                              "R-doc-table: the + && || tables of reference-main-null-data.md cannot be parsed",
+                              {"argv": ["help", "type-arithmetic-info-extended"], "stdin": ""})
         for op in infix:
-            cases.append({"op": op, "form": "infix", "pool": pool, "labelmap": labelmap, "tier": tier, "math2": math2})
+            cases.append({"op": op, "form": "infix", "pool": pool, "labelmap": labelmap, "tier": tier, "math2": math2,
+                          "doctab": doctab})
         for op in MINMAX + ["pow"] + [f for f in math2 if f != "pow"]:
-            if op in known:
+            if True:
                 cases.append({"op": op, "form": "func", "pool": pool, "labelmap": labelmap, "tier": tier, "math2": math2})
         results = chk.pmap(matrix_case, cases, label="m matrix")
         mats = {r["matrix"]["op"]: r["matrix"]["rows"] for r in results if r.get("matrix")}
         full = {r["matrix"]["op"]: r.get("kinds_full", {}) for r in results if r.get("matrix")}
         chk.extra["binary_operators_checked"] = sorted(mats)
-        chk.extra["kind_matrices_canonical"] = {"columns": "".join(ABBR[k] for k in KINDS), "legend": ABBR, "ops": mats}
+        chk.extra["kind_matrices_observed_not_judged"] = {"columns": "".join(ABBR[k] for k in KINDS), "legend": ABBR, "ops": mats}
+        unj = {r["unjudged"]["op"]: r["unjudged"] for r in results if r.get("unjudged")}
+        chk.extra["matrix_cells_total"] = sum(u["cells"] for u in unj.values())
+        chk.extra["matrix_cells_without_documented_expectation"] = sum(u["no_rule"] for u in unj.values())
+        chk.extra["matrix_cells_judged_by_symmetry_only"] = sum(u["only_symmetry"] for u in unj.values())
+        chk.extra["matrix_unjudged_per_op"] = {o: [u["no_rule"], u["only_symmetry"], u["cells"]] for o, u in sorted(unj.items())}
         byid = {o["id"]: o for o in pool}
         for x, y in TWINS:
             if x in full and y in full:
@@ -1407,7 +2098,7 @@ def run(chk):
                 chk.evaluations += ncmp
 
     if not only or "u" in only:
-        cases = [{"f": f, "fkind": "op", "pool": pool, "labelmap": labelmap, "tier": tier} for f in UNARY_OPS if f in known]
+        cases = [{"f": f, "fkind": "op", "pool": pool, "labelmap": labelmap, "tier": tier} for f in UNARY_OPS]
         cases += [{"f": f, "fkind": "math", "pool": pool, "labelmap": labelmap, "tier": tier} for f in math1]
         results = chk.pmap(unary_case, cases, label="u unary")
         chk.extra["unary_rows"] = {"columns": "".join(ABBR[k] for k in KINDS),
@@ -1415,7 +2106,7 @@ def run(chk):
         cases = [{"f": f, "arity": n, "pool": pool, "labelmap": labelmap, "tier": tier, "seed": f"{chk.seed}/un/{f}"}
                  for n, fs in ((2, math2), (3, math3)) for f in fs]
         chk.pmap(mathn_case, cases, label="u math arity 2-3")
-        judged, others = judged_functions()
+        judged, others = judged_functions(docf)
         chk.extra["func_abs_functions_judged"] = sorted(judged)
         chk.pmap(funcabs_case, [{"f": f, "args": a, "labelmap": labelmap, "tier": tier} for f, (c, a) in sorted(judged.items())],
                  label="u functions of absent arguments")
@@ -1429,6 +2120,7 @@ def run(chk):
         chk.extra["other_classes_all_absent_kinds"] = {cid: labelmap.get(v[0], v[0]) for cid, v in sorted(ogot.items())}
         cases = []
         canon_ids = [o["id"] for o in pool if o["canon"]]
+        cases.append({"f": "min", "rows": "partition", "pool": pool, "labelmap": labelmap, "tier": tier})
         for f in MINMAX:
             cases.append({"f": f, "rows": "small", "pool": pool, "labelmap": labelmap, "tier": tier})
             for i in range(0, len(canon_ids), 3):
@@ -1452,22 +2144,29 @@ def run(chk):
                                   {"argv": replay_argv(s), "stdin": INPUT})
         if chk.quick():
             sources = sources[:12]
-        # which op-assignment operators does this grammar have?
         forms = assign_forms()
-        rejected = []
-        for op in OPASSIGN:
-            r = R.mlr(["-n", "put", "$a " + op + " 1"], env=ENV)
-            if r.rc != 0:
-                rejected.append(op)
-                forms.pop("field-" + op, None)
-                forms.pop("oosvar-" + op, None)
-        chk.extra["op_assignments_not_in_grammar"] = rejected
         chk.extra["assignment_forms"] = len(forms) + len(ABSENT_KEY_FORMS)
         chk.extra["absent_sources"] = sources
         cases = [{"form": n, "labelmap": labelmap, "sources": sources, "tier": tier}
                  for n in list(forms) + list(ABSENT_KEY_FORMS)]
-        results = chk.pmap(assign_case, cases, label="a assignment")
-        chk.extra["assignment_forms_rejected_by_parser"] = sorted({n for r in results for n in r.get("rejected", [])})
+        # the same statements inside begin and end blocks (forms and sources that do not touch the record)
+        nblock = 0
+        for blk in ("begin", "end"):
+            for n in list(forms) + list(ABSENT_KEY_FORMS):
+                t = forms[n][0] + forms[n][2] + (forms[n][1] or "") if n in forms else "".join(ABSENT_KEY_FORMS[n][:2])
+                if _block_ok(t):
+                    cases.append({"form": n, "labelmap": labelmap, "sources": sources, "tier": tier, "block": blk})
+                    nblock += 1
+        chk.extra["assignment_forms_in_begin_end_blocks"] = nblock
+        chk.pmap(assign_case, cases, label="a assignment")
+        ksrc = sources if not chk.quick() else sources[:6]
+        kcases = [{"base": b, "op": o, "labelmap": labelmap, "sources": ksrc, "tier": tier} for b in ABSKEY_BASES for o in ABSKEY_OPS]
+        kcases += [{"base": b, "op": o, "labelmap": labelmap, "sources": ksrc, "tier": tier, "block": blk}
+                   for blk in ("begin", "end") for b in ABSKEY_BASES if b != "field"
+                   for o in (["="] if chk.quick() else list(ABSKEY_OPS))]
+        chk.extra["indexed_absent_key_cells"] = "bases %s x depth 1-3 x every key position x ops %s x %d absent sources" % (
+            sorted(ABSKEY_BASES), sorted(ABSKEY_OPS), len(ksrc))
+        chk.pmap(abskey_case, kcases, label="a indexed assignment with an absent key")
 
     if not only or "s" in only:
         n = chk.pick(150, 2500)
@@ -1487,6 +2186,34 @@ def run(chk):
     if not only or "d" in only:
         chk.pmap(doc_case, [{"labelmap": labelmap, "tier": tier}], label="d doc tables")
 
+    if not only or "f" in only:
+        # the same rules with operands read from DKVP / CSV files instead of being built in the DSL
+        fops = ["+", "-", "*", "/", "//", "**", ".+", "&", "|", "<<", ".", "<", "<=", "==", "!=", ">", "<=>", "&&", "||", "^^",
+                "??", "???", "=~", "min", "max"]
+        if not chk.quick():
+            fops = infix + MINMAX + ["pow"]
+        preds = sorted(f for f in known if f.startswith("is_"))
+        fcases, pcases = [], []
+        for io in from_data_sources():
+            fpool, probs = calibrate_from_data(io, labelmap)
+            for o, k, txt in probs:
+                chk.add_violation({"rule": "from-data-kind", "source": io["name"], "field": o["expr"], "expected": o["kind"], "got": k},
+                                  f"from-data-kind: {o['expr']} read from {io['name']} {io['stdin']!r} is {k} {txt!r}; the "
+                                  f"documentation says {o['kind']} {o['text']!r}",
+                                  {"argv": io["flags"] + ["put", "-q", f"print typeof({o['expr']}); print {o['expr']};"],
+                                   "stdin": io["stdin"], "env": ENV, "expected": [o["kind"], o["text"]], "got": [k, txt]})
+            chk.stats["from-data-kind"] = chk.stats.get("from-data-kind", 0) + len(fpool) + len(probs)
+            chk.evaluations += len(fpool) + len(probs)
+            fpool = _strip(fpool)
+            for op in fops:
+                fcases.append({"op": op, "form": "func" if op.isalnum() else "infix", "pool": fpool, "labelmap": labelmap,
+                               "tier": tier, "math2": math2, "io": io, "doctab": None})
+            pcases.append({"pool": fpool, "labelmap": labelmap, "preds": preds, "tier": tier, "io": io})
+        chk.extra["from_data_operands"] = [f"{f}={v!r} ({k})" for f, v, k in FROM_DATA_FIELDS] + ["(field not in the record) (absent)"]
+        chk.extra["from_data_operators"] = fops
+        chk.pmap(matrix_case, fcases, label="f matrix over operands read from DKVP/CSV")
+        chk.pmap(pred_case, pcases, label="f predicates over operands read from DKVP/CSV")
+
     chk.extra["cells_per_rule"] = {k: v for k, v in chk.stats.items() if k.startswith(("R-", "assign-", "accum"))}
     chk.assumptions = [
         "operand kinds are manufactured in the DSL and calibrated with typeof at run time: $nosuch/@nosuch/unset local/"
@@ -1499,8 +2226,21 @@ def run(chk):
         "scalars for R-error are the kinds listed under Scalars in reference-main-data-types.md (string incl. empty, int, float, boolean, bytes)",
         "empty - x is -x (worked example in the null-data reference); x - empty is x",
         "division-like operators with a numeric zero right operand are skipped here (C07's subject)",
-        "bytes and funct operands: only no-crash, commutativity and R-error (bytes) are judged; cells no rule speaks about are "
-        "recorded in kind_matrices_canonical for drift detection, not judged",
+        "R-type is the documented type rule, written from the documentation only (see the comment above doc_expect): the (+) table "
+        "of the null-data reference extended to the other arithmetic/bitwise operators by its sentence 'Other arithmetic, boolean, "
+        "and bitwise operators besides && and || are similar to +' (boolean or string operand -> error, error operand -> error, "
+        "empty/absent pairs, number x number -> number); number with empty for / // % ** ./ and the bitwise operators may be the "
+        "number ('similar to +') or empty ('most operators with an empty argument produce empty'), nothing else; dot concatenates "
+        "the printed texts; comparison operators follow their help ('Mixing number and string results in string compare'); "
+        "?? / ??? follow their help; && / || follow the recorded tables and the short-circuit prose; min/max follow "
+        "reference-dsl-operators.md, the help and the numbers-before-strings note of the stats1 min/max accumulators",
+        "cells the documentation leaves open (bytes, funct, JSON null, collections in arithmetic, float with bitwise operators, "
+        "booleans against numbers/strings in min/max and comparisons, number-looking string literals) are NOT judged and nothing "
+        "about them is taken from the binary: they are counted in matrix_cells_without_documented_expectation / "
+        "matrix_cells_judged_by_symmetry_only; the observed kind matrices are kept in the evidence for the reader only",
+        "an operator cell that aborts the process (instead of yielding a value, possibly an error value) is a violation",
+        "from-data operands (monitor f): kinds per reference-main-arithmetic.md 'Input scanning' and reference-main-data-types.md "
+        "(0xff int, 1e3 float, -, true, infinity and a single space are strings, x= is empty, a field the record lacks is absent)",
         "R-math-empty applies the null-data reference's sentence on functions of empty (example: log) to the class=math unary functions",
         "R-func-abs ('Functions of absent variables evaluate to absent', null-data reference) is judged for the named class=arithmetic "
         "and class=math functions at every arity and every non-empty subset of absent positions, and end to end as `$z = f(...)` on "
@@ -1509,5 +2249,6 @@ def run(chk):
         "R-twin: .+ .- .* are documented as + - * with integer-preserving overflow and pow as 'same as **', so their kind matrices must coincide",
         "accumulation model: ints and dyadic floats only (sums exact), products kept below 2^50, min/max workloads contain no empty values "
         "(max(empty, number) is judged in the matrix)",
-        "a form the parser rejects for every right-hand side (e.g. min=) is outside the domain and counted as skipped",
+        "assignment forms and compound-assignment operators are a fixed list taken from the documentation and the Miller 6 grammar "
+        "(no min= / max=, which Miller 6 does not have); a listed form that stops parsing is a violation, not a skip",
     ]
